@@ -448,7 +448,7 @@ def classify(recipe):
 
 LEGS = [
     Leg("fuzz", check_fuzz, classify, enumerate=enum_fuzz, shards={"quick": 4, "thorough": 16},
-        rule="atheris/libFuzzer coverage-guided campaigns (molli.parsing + chem readers instrumented): input bytes are decoded into (corpus file, 1-3 faults of one kind, optionally plus an arbitrary byte cut), the oracle of the other legs runs inside the target; "
+        rule="atheris/libFuzzer coverage-guided campaigns (molli.parsing + chem readers instrumented): input bytes are decoded into (corpus file, 1-3 faults of one kind: arbitrary byte cuts, line deletions, line duplications, invalid / deleted / inserted tokens), the oracle of the other legs runs inside the target; "
              "4 x 4 000 executions (quick) / 16 x 150 000 (thorough), half from an empty corpus and half from 8 seed inputs; evaluations = executions; libFuzzer -seed pins a campaign only approximately"),
     Leg("trunc_bundled", check_trunc, classify, enumerate=enum_trunc, exhaustive=True, shards={"quick": 10, "thorough": 12},
         rule="bundled mol2 / xyz files: EVERY truncation at a line boundary and at every byte offset of the last record; evaluations = damaged texts parsed; "
